@@ -191,6 +191,22 @@ CLAIMED["C05"] = dict(
     technique="Lean 4 proof (I/O contract) + differential testing of compile() against the source semantics",
 )
 
+CLAIMED["C13"] = dict(
+    text="Lean theorems about Src.joinPairs, the pairs a for-join loop visits in the source semantics: C13_visits - in the order "
+         "of the first array, exactly those of its elements for which the second array has an element with an equal key, each "
+         "once, paired with that element; C13_partner_sound / _complete / _unique - the partner has an equal key, none is missed, "
+         "and with pairwise different keys (strictly sorted input) it is the only one; C13_loop_is_body_per_pair - the statement "
+         "is the ordinary loop over these pairs, so effects and panics happen for these pairs only, in this order. PARTIAL: the "
+         "bitonic merge network of compile.rs and the join built-in are not modelled. They are explored: generated programs "
+         "around a join_iter loop (all unsigned key types, pairs, [u8; k], 1..6 elements, destructuring patterns, bodies that "
+         "assign / overflow / index) on strictly sorted arrays against the Lean semantics (value, panic flag and reason), SSA "
+         "and register circuits; and join(a, b) with / without associated data, lengths 1..8, repeated keys: n+m-1 entries, "
+         "flags sorted, unflagged entries all zero, flagged entries exactly the common keys, each once.",
+    design_ref="DESIGN.md §6 C13",
+    note="trusted: Lean kernel; joinPairs is the hand-written specification; key order = order of the encoded bits (unsigned keys)",
+    technique="Lean 4 proof (specification of the joined pairs) + differential testing on sorted inputs",
+)
+
 CLAIMED["C06"] = dict(
     text="(1) Kernel-checked obligation extracted_hashIterSites: the list of HashMap/HashSet iteration sites of /repo/src, REGENERATED "
          "from the source on every run, equals the audited list in which every site carries the reason why its order cannot reach "
